@@ -167,7 +167,18 @@ class RollingAggregation(Blockwise):
 
     @functools.cached_property
     def _meta(self):
-        return self.frame._meta
+        # as RollingReduction._meta: count()/mean() of integers are floats
+        meta = _rolling_agg(
+            self.frame._meta,
+            window=self.window,
+            kwargs=self.kwargs,
+            how=self.how,
+            how_args=self.how_args,
+            how_kwargs=self.how_kwargs,
+            groupby_kwargs=self.groupby_kwargs,
+            groupby_slice=self.groupby_slice,
+        )
+        return make_meta(meta)
 
 
 class RollingCount(RollingReduction):
